@@ -901,6 +901,8 @@ fn create_unique_identifier(preferred_name: &str, used: &mut HashSet<String>) ->
 
     let mut i = 2;
     loop {
+        #[cfg(feature = "kiki_verif")]
+        crate::verif_hooks::tick(crate::verif_hooks::SITE_UNIQUE_IDENTIFIER);
         let name = format!("{}{}", preferred_name, i);
         if !used.contains(&name) {
             used.insert(name.clone());
